@@ -73,6 +73,11 @@ def materialize(spec: dict[str, Any]) -> dict[str, Any]:
                         c.send("ListEntitiesSensorResponse", _delay=0.4 * (i + 1), key=i + 1, object_id=f"s{i}", name=f"S{i}")
                     c.send("ListEntitiesDoneResponse", _delay=2.0)
                 handlers["ListEntitiesRequest"] = ents
+            elif name.startswith("slow_hello"):
+                d = float(name.split(":")[1])
+                handlers["HelloRequest"] = lambda c, m, d=d: c.send("HelloResponse", _delay=d, api_version_major=1, api_version_minor=10, name="dev", server_info="slow")
+            elif name == "no_disconnect_answer":
+                handlers["DisconnectRequest"] = lambda c, m: None
             elif name == "slow_disconnect":
                 def disc(c: Any, m: Any) -> None:
                     c.send("DisconnectResponse", _delay=1.0)
@@ -158,6 +163,9 @@ def judge_c07(obs: L.Obs) -> list[tuple[str, str]]:
         if n > 1:
             out.append(("C07/on_stop-multiple", f"on_stop called {n}x for one session"))
         if final != "CLOSED":
+            if obs.lost_not_closed:
+                out.append(("C07/on_stop-missing", f"the session's transport is gone ({obs.lost_not_closed[0]}) but the connection never closed and on_stop was "
+                            f"called {n}x (cause {cause_tag(obs)})"))
             continue  # session still alive at the horizon: nothing to judge yet
         if n == 0:
             out.append(("C07/on_stop-missing", f"connection reached CONNECTED and is CLOSED but on_stop was never called (cause {cause_tag(obs)})"))
@@ -165,15 +173,16 @@ def judge_c07(obs: L.Obs) -> list[tuple[str, str]]:
         seq_stop, _, arg = v.on_stop[0]
         certain = False
         maybe = False
+        cutoff = v.closed_seq if v.closed_seq is not None else seq_stop   # "initiated BEFORE the connection closed": the CLOSED write, not the callback
         for gseq, kind, st in v.graceful:
-            if gseq > seq_stop:
+            if gseq > cutoff:
                 continue
             if kind == "force" or (kind == "disconnect" and st == "CONNECTED"):
                 certain = True
             else:
                 maybe = True
         for pseq, ty, st in v.packets:
-            if ty == 5 and pseq < seq_stop and st != "CLOSED":
+            if ty == 5 and pseq < cutoff and st != "CLOSED":
                 if st in ("CONNECTED", "HANDSHAKE_COMPLETE"):
                     certain = True
                 else:
@@ -188,6 +197,8 @@ def judge_c07(obs: L.Obs) -> list[tuple[str, str]]:
 
 def judge_c08(obs: L.Obs) -> list[tuple[str, str]]:
     out = []
+    for b in obs.lost_not_closed[:2]:
+        out.append(("C08/not-closed-after-transport-lost", f"{b} (cause {cause_tag(obs)}): the loss of the transport did not close the connection"))
     for a in obs.audits + [obs.final_audit]:
         if a["conn"] is None:
             continue
@@ -478,6 +489,67 @@ def duplicate_answers_sweep(ctx: Ctx, prop: str) -> None:
                 record(ctx, prop, run_spec(spec), "duplicate-answers/" + label)
 
 
+def stalled_connect_sweep(ctx: Ctx, prop: str) -> None:
+    """A connect that is stuck in the hello phase, a disconnect() issued meanwhile (its 5 s wait for the connect expires, it then asks the
+    device to disconnect and waits), optionally that disconnect() cancelled, optionally the hello answered late (the session gets established
+    after all) - and then the link dies.  Multi-step histories with specific time gaps; every close cause afterwards must still close."""
+    S = L.default_spec
+    t0 = L.core_start()
+    idx = 0
+    for framing in ("plain", "noise"):
+        for hello_at in (8.0, None):
+            for disc_answer in ("slow_disconnect", "no_disconnect_answer"):
+                for cancel_disc in (False, True):
+                    for final in ("eof", "rst", "garbage", "bad_pb", "sendfail+cmd", "none"):
+                        for t_final in (6.5, 9.0):
+                            idx += 1
+                            if not ctx.mine(idx):
+                                continue
+                            handlers = disc_answer + (f"+slow_hello:{hello_at}" if hello_at else "")
+                            dev: dict[str, Any] = {"handlers": handlers}
+                            if hello_at is None:
+                                dev["answer_hello"] = False
+                            faults: list[dict[str, Any]] = [{"kind": "disconnect", "point": {"t": t0 + 1.0}, "posclass": "stalled"}]
+                            if cancel_disc:
+                                faults.append({"kind": "cancel", "point": {"t": t0 + 6.2}, "posclass": "stalled"})
+                            if final == "sendfail+cmd":
+                                faults.append({"kind": "sendfail", "point": {"t": t0 + t_final}, "posclass": "stalled"})
+                                faults.append({"kind": "cmd", "point": {"t": t0 + t_final + 0.1}, "posclass": "stalled"})
+                            elif final != "none":
+                                faults.append({"kind": final, "point": {"t": t0 + t_final}, "posclass": "stalled"})
+                            spec = S(framing=framing, device=dev, program=[["connect"], ["sleep", 20.0], ["disconnect"]], faults=faults)
+                            record(ctx, prop, run_spec(spec), "stalled-connect")
+
+
+def same_turn_pairs_sweep(ctx: Ctx, prop: str) -> None:
+    """A network close cause and a user action in the SAME loop iteration, in both orders (user action ahead of the I/O callbacks of the
+    instant, or behind them as a zero-delay timer), on an idle session and on one with a request pending."""
+    S = L.default_spec
+    t0 = L.core_start()
+    bases = [
+        ("idle", S(program=[["connect"], ["sleep", 3.0], ["disconnect"]])),
+        ("noise-idle", S(framing="noise", program=[["connect"], ["sleep", 3.0], ["disconnect"]])),
+        ("request-pending", S(device={"handlers": "slow_device_info"}, program=[["connect"], ["spawn", "device_info"], ["sleep", 3.0], ["disconnect"]])),
+    ]
+    idx = 0
+    for label, bspec in bases:
+        for net in ("eof", "rst", "garbage01", "garbage", "bad_pb", "peer_disconnect", "sendfail+ping"):
+            for user in ("force", "disconnect", "cancel", "cmd"):
+                for after_io in (False, True):
+                    idx += 1
+                    if not ctx.mine(idx):
+                        continue
+                    t = t0 + 1.0
+                    faults: list[dict[str, Any]] = []
+                    if net == "sendfail+ping":
+                        faults.append({"kind": "sendfail", "point": {"t": t - 0.001}, "posclass": "same-turn"})
+                        faults.append({"kind": "chunk:ping_req", "point": {"t": t}, "posclass": "same-turn"})
+                    else:
+                        faults.append({"kind": net, "point": {"t": t}, "posclass": "same-turn"})
+                    faults.append({"kind": user, "point": {"t": t, "after_io": after_io}, "posclass": "same-turn-after-io" if after_io else "same-turn-before-io"})
+                    record(ctx, prop, run_spec({**bspec, "faults": faults}), "same-turn-pair/" + label)
+
+
 def connect_fault_sweep(ctx: Ctx, prop: str) -> None:
     """C09: resolver / TCP connect faults (error, hang, delay), alone and with user actions during the wait."""
     S = L.default_spec
@@ -500,6 +572,12 @@ def connect_fault_sweep(ctx: Ctx, prop: str) -> None:
         ("silent-device-plain", S(device={"answer_hello": False})),
         ("silent-device-noise", S(framing="noise", device={"noise_silent": True})),
         ("no-connect-response", S(device={"answer_connect": False})),
+        # the device REJECTS the client (or the client the device) during the connect phase - with user actions at every point of it
+        ("invalid-password", S(device={"invalid_password": True})),
+        ("bad-name-plain", S(expected_name="other")),
+        ("bad-name-noise", S(framing="noise", expected_name="other")),
+        ("noise-wrong-key", S(framing="noise", device={"noise_psk": bytes(range(100, 132))})),
+        ("incompatible-version", S(device={"api_major": 3})),
     ]
     idx = 0
     for label, bspec in worlds:
